@@ -5,7 +5,6 @@ package main
 
 import (
 	"fmt"
-	"go/constant"
 	"go/token"
 	"go/types"
 	"strings"
@@ -75,8 +74,7 @@ func checkC19(p *Prog, r *Report) {
 		})
 	}
 	wp := p.Func(opsPkg, "Shell", "writePlain")
-	rst := p.Func(opsPkg, "Shell", "resetSilenceTimer")
-	for n, f := range map[string]*ssa.Function{"timer function": timerFn, "control-key callback": cbFn, "writePlain": wp, "resetSilenceTimer": rst} {
+	for n, f := range map[string]*ssa.Function{"timer function": timerFn, "control-key callback": cbFn, "writePlain": wp} {
 		if nil == f {
 			rAnch.Unproven(n, token.NoPos, "%s not found", n)
 		} else {
@@ -84,7 +82,7 @@ func checkC19(p *Prog, r *Report) {
 			r.Saw("func " + fnName(f))
 		}
 	}
-	if nil == timerFn || nil == cbFn || nil == wp || nil == rst {
+	if nil == timerFn || nil == cbFn || nil == wp {
 		return
 	}
 
@@ -114,34 +112,9 @@ func checkC19(p *Prog, r *Report) {
 		}
 		return out, k
 	}
-	/* Summary of resetSilenceTimer: does it record time.Now() always, or only
-	under a boolean parameter? */
-	rstAlways := false
-	var rstParam *ssa.Parameter
-	eachInstr(rst, func(j ssa.Instruction) {
-		st, ok := j.(*ssa.Store)
-		if !ok {
-			return
-		}
-		if fv, _ := fieldAddrOf(st.Addr); fv != last {
-			return
-		}
-		if c, ok := st.Val.(*ssa.Call); !ok || "time.Now" != calleeName(c.Common()) {
-			return
-		}
-		guarded := false
-		for _, b := range rst.Blocks {
-			if ifi := blockIf(b); nil != ifi {
-				if pa, ok := decodeCond(ifi.Cond).X.(*ssa.Parameter); ok && edgeDominates(ifi, 0, st) {
-					guarded, rstParam = true, pa
-				}
-			}
-		}
-		if !guarded {
-			rstAlways = true
-		}
-	})
-	trueConst := ssa.Value(ssa.NewConst(constant.MakeBool(true), types.Typ[types.Bool]))
+	/* Helpers which arm the timer (resetSilenceTimer and whatever replaces
+	it) are folded into their callers before analysis, so the time store
+	and the timer reset are looked for where they happen. */
 	isReset := func(i ssa.Instruction) (bool, ssa.Value) {
 		c := callCommon(i)
 		if nil == c {
@@ -149,15 +122,6 @@ func checkC19(p *Prog, r *Report) {
 		}
 		if _, isGo := i.(*ssa.Go); isGo {
 			return false, nil
-		}
-		if c.StaticCallee() == rst {
-			switch {
-			case rstAlways:
-				return true, trueConst
-			case nil != rstParam:
-				return true, c.Args[paramIndex(rst, rstParam)]
-			}
-			return true, ssa.Value(ssa.NewConst(constant.MakeBool(false), types.Typ[types.Bool]))
 		}
 		if "(*time.Timer).Reset" == calleeName(c) {
 			if fv, _ := loadedField(c.Args[0]); fv == tim {
@@ -176,10 +140,6 @@ func checkC19(p *Prog, r *Report) {
 					return true
 				}
 			}
-		}
-		if ok, upd := isReset(j); ok && nil != upd {
-			b, isC := constBool(upd)
-			return isC && b
 		}
 		return false
 	}
@@ -474,85 +434,64 @@ func checkC19(p *Prog, r *Report) {
 			rArm.OK(fnName(muteFn)+":mute-arms-timer", posOf(stT), "muting records the time and starts the pause timer")
 		}
 	}
-	/* resetSilenceTimer. */
+	/* Every reset of the pause timer: it fires PlainWritePause after the last
+	suppressed write — relative to lastPlainWrite, or a full pause from now
+	when the time of the write has just been recorded. */
 	{
-		okReset := false
-		eachInstr(rst, func(j ssa.Instruction) {
-			if c := callCommon(j); nil != c && "(*time.Timer).Reset" == calleeName(c) {
-				if fv, _ := loadedField(c.Args[0]); fv == tim {
-					hasLast, hasPause := false, false
-					for _, x := range valueRoots(c.Args[1], func(n string) bool {
-						return "time.Until" == n || "(time.Time).Add" == n || "(time.Time).Sub" == n || "time.Since" == n
-					}) {
-						if "field" == x.Kind && x.Field == last {
-							hasLast = true
-						}
-						if "const" == x.Kind {
-							if k, ok := constInt(x.V); ok && k == pause {
-								hasPause = true
-							}
-						}
+		nreset := 0
+		for _, fn := range p.Funcs() {
+			if nil == fn.Pkg || !strings.HasSuffix(fn.Pkg.Pkg.Path(), "/"+opsPkg) {
+				continue
+			}
+			eachInstr(fn, func(j ssa.Instruction) {
+				c := callCommon(j)
+				if nil == c || "(*time.Timer).Reset" != calleeName(c) {
+					return
+				}
+				if fv, _ := loadedField(c.Args[0]); fv != tim {
+					return
+				}
+				nreset++
+				cc := fmt.Sprintf("%s:fires-after-pause#%d", fnName(fn), nreset)
+				hasLast, hasPause := false, false
+				var droots []Root
+				var dwalk func(v ssa.Value, depth int)
+				dwalk = func(v ssa.Value, depth int) {
+					if bo, ok := stripConv(v, true).(*ssa.BinOp); ok && depth < 6 && (token.ADD == bo.Op || token.SUB == bo.Op) {
+						dwalk(bo.X, depth+1)
+						dwalk(bo.Y, depth+1)
+						return
 					}
-					/* Either relative to lastPlainWrite, or a full pause from
-					now when the time of the write is recorded now as well. */
-					if hasPause && (hasLast || rstAlways) {
-						okReset = true
+					droots = append(droots, valueRoots(v, func(n string) bool {
+						return "time.Until" == n || "(time.Time).Add" == n || "(time.Time).Sub" == n || "time.Since" == n
+					})...)
+				}
+				dwalk(c.Args[1], 0)
+				for _, x := range droots {
+					if "field" == x.Kind && x.Field == last {
+						hasLast = true
+					}
+					if "const" == x.Kind {
+						if k, ok := constInt(x.V); ok && k == pause {
+							hasPause = true
+						}
 					}
 				}
-			}
-		})
-		if rstAlways || nil != rstParam {
-			rArm.OK(fnName(rst)+":records-now", rst.Pos(), "lastPlainWrite = time.Now()")
-		} else {
-			rArm.Bad(fnName(rst)+":records-now", rst.Pos(), "resetSilenceTimer never records the current time")
-		}
-		if okReset {
-			rArm.OK(fnName(rst)+":fires-after-pause", rst.Pos(), "silenceTimer fires PlainWritePause after the last suppressed write")
-		} else {
-			rArm.Bad(fnName(rst)+":fires-after-pause", rst.Pos(), "the timer is not reset to fire PlainWritePause after the last suppressed write")
-		}
-	}
-
-	/* resetSilenceTimer resets on every path and its time update is guarded
-	by nothing but its own parameter. */
-	{
-		var reset ssa.Instruction
-		eachInstr(rst, func(j ssa.Instruction) {
-			if c := callCommon(j); nil != c && "(*time.Timer).Reset" == calleeName(c) {
-				reset = j
-			}
-		})
-		if nil != reset {
-			if miss := (reachQ{From: entryLoc(rst), Target: isReturn, Block: func(j ssa.Instruction) bool { return j == reset }}).run(); nil != miss {
-				rArm.Bad(fnName(rst)+":always-resets", posOf(miss), "resetSilenceTimer can return without resetting the timer (and without recording the time): the calm interval is measured from an older write and muting ends early")
-			} else {
-				rArm.OK(fnName(rst)+":always-resets", posOf(reset), "every call resets the timer")
-			}
-		}
-		/* The time update: reachable from entry whenever the parameter is
-		true (no other guard). */
-		if nil != rstParam {
-			var upd ssa.Instruction
-			eachInstr(rst, func(j ssa.Instruction) {
-				if st, ok := j.(*ssa.Store); ok {
-					if fv, _ := fieldAddrOf(st.Addr); fv == last {
-						upd = j
+				justRecorded := false
+				eachInstr(fn, func(k ssa.Instruction) {
+					if recordsNow(k) && instrDominates(k, j) {
+						justRecorded = true
 					}
+				})
+				if hasPause && (hasLast || justRecorded) {
+					rArm.OK(cc, posOf(j), "silenceTimer fires PlainWritePause after the last suppressed write")
+				} else {
+					rArm.Bad(cc, posOf(j), "the timer is not reset to fire PlainWritePause after the last suppressed write")
 				}
 			})
-			ne := map[Edge]bool{}
-			for _, b := range rst.Blocks {
-				if ifi := blockIf(b); nil != ifi && decodeCond(ifi.Cond).X == ssa.Value(rstParam) {
-					ne[Edge{b.Index, b.Succs[1].Index}] = true /* parameter false */
-				}
-			}
-			if nil != upd {
-				if miss := (reachQ{From: entryLoc(rst), NoEdges: ne, Target: isReturn, Block: func(j ssa.Instruction) bool { return j == upd }}).run(); nil != miss {
-					rArm.Bad(fnName(rst)+":update-unconditional", posOf(miss), "when asked to record the time of a write resetSilenceTimer can skip doing so")
-				} else {
-					rArm.OK(fnName(rst)+":update-unconditional", posOf(upd), "the time is recorded whenever the caller asks for it")
-				}
-			}
+		}
+		if 0 == nreset {
+			rArm.Bad("silenceTimer:reset", token.NoPos, "the pause timer is never reset")
 		}
 	}
 	/* Only shell output goes through the mute-aware write. */
@@ -678,21 +617,6 @@ func checkC19(p *Prog, r *Report) {
 			}
 		})
 		if 0 == len(acc) {
-			continue
-		}
-		if fn == rst {
-			/* Documented: caller must hold wL. */
-			okAll := true
-			for _, ci := range p.callersOf(rst) {
-				held := mustHold(ci.Parent(), wl)
-				if !held[ci] {
-					okAll = false
-					rLock.Bad(fnName(ci.Parent())+"→resetSilenceTimer", posOf(ci), "resetSilenceTimer is called without Shell.wL")
-				}
-			}
-			if okAll {
-				rLock.OK(fnName(rst)+":callers-hold-lock", rst.Pos(), "every caller holds Shell.wL")
-			}
 			continue
 		}
 		held := mustHold(fn, wl)
